@@ -114,12 +114,18 @@ def _gsd_body_paths(nc, ns=1):
         I.check_lib_pre = False
         I.lazy_merge = False
         I.loop_hook = hook
-        I.call_fn("GenerateStochasticDistribution", [Vec(list(X), "double", name="mesh_x"), nc, ns, 42])
-        return None
+        return I.call_fn("GenerateStochasticDistribution", [Vec(list(X), "double", name="mesh_x"), nc, ns, 42])
 
+    _BYPASS[(nc, ns)] = bypass = []
     for pr in explore(program(), body, max_paths=400, budget_s=120, unwind=6):
-        pass
+        # a path on which the function RETURNS without the correction loop ever being entered (for any species): the loop
+        # contract says nothing about it, so the function's postcondition is proved on it directly
+        if pr.I is not None and not pr.ended and pr.value is not None:
+            bypass.append((pr.I, list(pr.value.elems)))
     return X, Q, dc, D, results
+
+
+_BYPASS = {}
 
 
 def gsd_induction(rec, nc=2, ns=1):
@@ -168,6 +174,22 @@ def gsd_induction(rec, nc=2, ns=1):
                 rec.violation("gsd-invariant", "one iteration of the redistribution correction loop breaks its invariant / exit condition (%s); real build: %s" % (desc, rp[1]), {"structure": desc, "real": rp[1]}, replayed=rp[0])
             else:
                 rec.oblig(name, "inconclusive", "solver unknown/timeout", time.time() - t0, desc)
+    # paths that never enter the correction loop: the result must already satisfy the function's postcondition
+    for (Ib, out) in _BYPASS.get((nc, ns), []):
+        feas, _ = Ib.check()
+        if feas != "sat":
+            continue
+        n += 1
+        for sp in range(ns):
+            tot = sum((Ib.toreal(out[i * ns + sp]) for i in range(nc)), z3.RealVal(0))
+            real = sum((X[i * ns + sp] for i in range(nc)), z3.RealVal(0))
+            ents = [Ib.toreal(out[i * ns + sp]) for i in range(nc)]
+            claim = z3.And(tot == z3.ToReal(z3.ToInt(real)), *[z3.And(e >= 0, e == z3.ToReal(z3.ToInt(e))) for e in ents],
+                           *[z3.Implies(X[i * ns + sp] == 0, ents[i] == 0) for i in range(nc)])
+            _prove(rec, Ib, "no correction needed (loop never entered): species %d total == floor(real total), entries non-negative integers, empty cells empty" % sp, claim, desc,
+                   lambda m: rec.violation("gsd-bypass", "redistribution returns without entering the correction loop although the result is not valid: a species total differs from the floor of its real total "
+                                                         "(or an entry is negative / fractional / in an empty cell) (%s)" % desc, {"structure": desc, "model": str(m)[:400]},
+                                           replayed=replay_gsd_validity()[0]))
     # initiation: the state in which the real code first reaches the loop satisfies the invariant
     seen = set()
     for r in results:
